@@ -53,6 +53,13 @@ def r08a(model: Model, rr: RuleResult):
     for f in oa.findings:
         cons = f.source if isinstance(f.node, ast.For) else short(f.node, 140)
         why = _exception_for(f.fi.fq, cons) or _exception_for(f.fi.fq, f.source)
+        if why is None and isinstance(f.node, ast.For) and f.fi.module.name == "reorder_glyphs" and isinstance(f.node.iter, ast.Name):
+            # the reviewed exception above, recognised by what is iterated rather than by its name: a literal set of layout-table tags
+            it = f.node.iter.id
+            cfg = cfg_of(f.fi)
+            vals = [d.value for d in cfg.reaching(cfg.node_for(f.node), it) if d.value is not None] or ([f.fi.module.assigns[it]] if it in f.fi.module.assigns else [])
+            if vals and all(isinstance(v, ast.Set) and all(isinstance(e, ast.Constant) and e.value in ("GDEF", "GPOS", "GSUB", "MATH") for e in v.elts) for v in vals):
+                why = ORDER_EXCEPTIONS[("reorder_glyphs.reorder_glyphs", "for tag in coverage_containers")]
         if why:
             rr.exceptions_used.append(f"{f.fi.fq}: {cons}: {why}")
             continue
@@ -237,7 +244,7 @@ def r08d(model: Model, rr: RuleResult):
         if isinstance(st, ast.Assign) and any("ufo.info" in norm(t) or "ufo.lib" in norm(t) for t in st.targets):
             nm = names_in(st.value) - {"config", "ufo", "ufo2ft", "keep"}
             if nm:
-                rr.bad(fi, st, f"font info field set from {sorted(nm)}", construct=short(st))
+                rr.bad_shape(fi, st, f"font info field set from {sorted(nm)}", construct=short(st))
             else:
                 rr.ok(f"_ufo: {short(st.targets[-1], 40)} <- config only")
 
@@ -278,7 +285,7 @@ def r08e(model: Model, rr: RuleResult):
                 elif it is None and fi.name in ("part_file_dest",):
                     continue
                 else:
-                    rr.bad(fi, c, f"{short(c, 60)} is called outside an iteration over the sorted source list (iterating {it}): the 1..N "
+                    rr.bad_shape(fi, c, f"{short(c, 60)} is called outside an iteration over the sorted source list (iterating {it}): the 1..N "
                            f"disambiguation of equal file names would depend on call order", construct=f"{fi.qualname}: {short(c, 60)} in loop over {it}")
     lfi = model.func("config", "load")
     mc = [c for c in calls_in(lfi) if norm(c.func) == "MasterConfig"]
@@ -307,7 +314,7 @@ def r08e(model: Model, rr: RuleResult):
         rr.bad(lfi, mc[0], "master sources are sorted by the way their paths were spelled (relative to the working / config directory) and made absolute "
                "afterwards: source order, hence glyph order, depends on where the build is started from", construct="config.load: sorted before abspath")
     else:
-        rr.bad(lfi, mc[0], "master sources are not sorted after being collected in a set / from glob", construct=short(mc[0], 120))
+        rr.bad_shape(lfi, mc[0], "master sources are not sorted after being collected in a set / from glob", construct=short(mc[0], 120))
     sfi = model.func("config", "load")
     if any(isinstance(n, ast.Call) and norm(n.func) == "sorted" and "source_names" in norm(n) for n in walk_body(sfi)):
         rr.ok("config.load: source_names sorted")
